@@ -286,26 +286,46 @@ def run(pid, tier, seed, replay):
     scripts = [dict(id=i, stim=list(s), pre=p) for i, (s, p) in enumerate(scripts)]
     log("J2: %d scripts (of %d exported)" % (len(scripts), total_scripts))
 
-    # ---- J2 replay (sharded over processes; one system under test at a time per process) -----------------
-    order = list(range(len(scripts)))
-    rng.shuffle(order)
-    shards = [[] for _ in range(nproc)]
-    for k, i in enumerate(order):
-        if len(scripts[i]["stim"]) > 40:
+    # burst variants: adjacent stimuli joined "x+y(+z)" are applied back to back, so that several select cases of the
+    # real loops are ready at once and the runtime picks (validated against the interleaved model)
+    bursts = []
+    for sc in scripts:
+        st = sc["stim"]
+        if len(st) < 2 or len(st) > 40:
             continue
-        shards[k % nproc].append(scripts[i])
+        g, i = [], 0
+        while i < len(st):
+            if i + 1 < len(st) and rng.random() < 0.5:
+                n = 3 if (i + 2 < len(st) and rng.random() < 0.3) else 2
+                g.append("+".join(st[i:i + n]))
+                i += n
+            else:
+                g.append(st[i])
+                i += 1
+        if any("+" in x for x in g):
+            bursts.append(dict(id=1000000 + sc["id"], stim=g, pre=sc["pre"], burst=True))
+    log("J2: %d burst variants" % len(bursts))
+
+    # ---- J2 replay (sharded over processes; one system under test at a time per process) -----------------
+    def shard(items, n):
+        order = list(range(len(items)))
+        rng.shuffle(order)
+        out = [[] for _ in range(n)]
+        for k, i in enumerate(order):
+            out[k % n].append(items[i])
+        return [x for x in out if x]
+    shards = [(sh, True) for sh in shard([s for s in scripts if len(s["stim"]) <= 40], nproc)]
     long_ones = [s for s in scripts if len(s["stim"]) > 40]
     if long_ones:
-        shards.append(long_ones)
+        shards.append((long_ones, True))
+    shards += [(sh, False) for sh in shard(bursts, max(2, nproc // 2))]
     rfuts = []
-    for k, sh in enumerate(shards):
-        if not sh:
-            continue
+    for k, (sh, atomic) in enumerate(shards):
         ip, op = os.path.join(work, "s%d.ndjson" % k), os.path.join(work, "t%d.ndjson" % k)
         with open(ip, "w") as fh:
             for s in sh:
                 fh.write(json.dumps(s) + "\n")
-        rfuts.append((op, pool.submit(run_vh, vh, ["replay", "-v", "-in", ip, "-out", op], 2400)))
+        rfuts.append((op, atomic, pool.submit(run_vh, vh, ["replay", "-v", "-in", ip, "-out", op], 2400)))
     # free-running executions
     nfree_p, nfree_n = (6, 300) if quick else (12, 2500)
     ffuts = []
@@ -315,12 +335,12 @@ def run(pid, tier, seed, replay):
                                                        "-out", op], 2400)))
 
     steps = forced_order = 0
-    for op, f in rfuts:
+    for op, atomic, f in rfuts:
         summ, _ = f.result()
         steps += summ["steps"]
         forced_order += summ["forced_order"]
     # ---- J3 --------------------------------------------------------------------------------------------
-    jf = [(op, pool.submit(judge, op, True)) for op, _ in rfuts]
+    jf = [(op, pool.submit(judge, op, atomic)) for op, atomic, _ in rfuts]
     fsteps = 0
     for op, k, f in ffuts:
         summ, _ = f.result()
@@ -353,7 +373,7 @@ def run(pid, tier, seed, replay):
                              generated=r.generated, depth=r.depth, wall_s=round(r.wall_s, 1))
 
     # ---- verdict ---------------------------------------------------------------------------------------
-    sid = {s["id"]: s for s in scripts}
+    sid = {s["id"]: s for s in scripts + bursts}
     violations, drift, inconclusive = [], [], []
     groups = {}
     for i, recs in by.items():
@@ -377,7 +397,7 @@ def run(pid, tier, seed, replay):
         detail += "shortest: %s (pre-existing deployment: %s)\n" % (" ".join(s["stim"]), s["pre"])
         detail += "\n".join(json.dumps(show(r)) for r in by[best])
         violations.append(vlib.Violation(pid, sig, detail, {
-            "script.json": json.dumps(dict(stim=s["stim"], pre=s["pre"])),
+            "script.json": json.dumps(dict(stim=s["stim"], pre=s["pre"], burst=bool(s.get("burst")))),
             "trace.ndjson": "".join(json.dumps(r) + "\n" for r in by[best])}))
     fgroups = {}
     for key, recs in fby.items():
@@ -432,7 +452,8 @@ def run(pid, tier, seed, replay):
         "states": int(sum(c.get("distinct", 0) for c in configs.values())),
         "transitions": int(sum(c.get("generated", 0) for c in configs.values())),
         "traces_validated_against_impl": len(by) + len(fby),
-        "forced_schedule_scripts_replayed": len(by),
+        "forced_schedule_scripts_replayed": len([i for i in by if i < 1000000]),
+        "burst_variants_replayed": len([i for i in by if i >= 1000000]),
         "free_running_executions": len(fby),
         "evaluations": steps + fsteps,
         "distinct_nontrivial": len(keys),
@@ -483,9 +504,9 @@ def do_replay(pid, tier, seed, path, vh, work, t0):
     s = json.load(open(p))
     ip, op = os.path.join(work, "s.ndjson"), os.path.join(work, "t.ndjson")
     with open(ip, "w") as fh:
-        fh.write(json.dumps(dict(id=0, stim=s["stim"], pre=s.get("pre", False))) + "\n")
+        fh.write(json.dumps(dict(id=0, stim=s["stim"], pre=s.get("pre", False), burst=bool(s.get("burst")))) + "\n")
     run_vh(vh, ["replay", "-in", ip, "-out", op], 600)
-    v, _ = judge(op, True)
+    v, _ = judge(op, not s.get("burst"))
     by = read_traces(op)
     for r in by[0]:
         print(json.dumps(show(r)))
